@@ -57,6 +57,8 @@ DFLT_CODES = [(0.5, 10000001), (7.0, 10000002), (-1.5, 10000003), ("e", 20000001
 
 
 def dcode(v):
+    if v is None:
+        return 40000001
     if isinstance(v, bool):
         return 30000001 + int(v)
     if isinstance(v, int):
@@ -133,6 +135,8 @@ def apply_op(t, op):
         k = op.get("k", 0)
         if op.get("byrank"):
             kw["rankid"] = t.getRankIds()[k]
+            if op.get("depth_also") is not None:     # both keywords: the rank id decides
+                kw["depth"] = op["depth_also"]
         elif k or op.get("depthkw"):
             kw["depth"] = k
         kind = op["kind"]
@@ -240,6 +244,8 @@ def run_ctor(case):
         elif how == "fromUncompressed":
             nest = case["nest"] if case.get("nest") is not None else _nest(case["t"], d, case["dims"], dflt)
             t = ft.Tensor.fromUncompressed(rank_ids=ids, root=nest, shape=shape, default=dflt)
+        elif how == "makePopulated-nodefault":
+            t = ft.Tensor.makePopulated(ids, list(case["dims"]), initial=case.get("initial", 1))
         elif how == "makePopulated":
             t = ft.Tensor.makePopulated(ids, list(case["dims"]), initial=case.get("initial", 1), default=dflt)
         elif how == "fromRandom":
@@ -583,6 +589,15 @@ def _split_ops(d, n, rng=None):
         ops.append({"name": "split", "kind": "unequal", "sizes": [1, 2], "k": k, "depthkw": True})
     ops.append({"name": "split", "kind": "truediv", "n": 2, "k": 0})
     ops.append({"name": "split", "kind": "floordiv", "n": 2, "k": 0})
+    # legal but unusual: rankid alone for every flavour, and depth= AND rankid= together, naming
+    # the same rank or different ones (the rank id decides, in the tensor and in the fiber method)
+    flav = [{"kind": "uniform", "step": 2}, {"kind": "nonuniform", "splits": [0, 2]},
+            {"kind": "equal", "step": 2}, {"kind": "unequal", "sizes": [1, 2]}]
+    for k in range(d):
+        for fl in flav:
+            ops.append(dict({"name": "split", "k": k, "byrank": True}, **fl))
+            for k2 in range(d):
+                ops.append(dict({"name": "split", "k": k, "byrank": True, "depth_also": k2}, **fl))
     return ops
 
 
@@ -741,7 +756,8 @@ def _small_scope(tier):
     for d in (1, 2, 3):
         ids = IDS[:d]
         ops = _ops_for(d, ids)
-        for dflt, fd in ((7, 0), (0, 7), (0.5, 0.5), (7.0, 0), ("e", "e"), (-1.5, 0)):
+        for dflt, fd in ((7, 0), (0, 7), (0.5, 0.5), (7.0, 0), ("e", "e"), (-1.5, 0), (None, None), ("", ""),
+                         (None, 0)):
             for declared in (False, True):
                 for op in ops:
                     i += 1
@@ -778,11 +794,19 @@ def _small_scope(tier):
             for shape in (None, _cover(t, d)):
                 yield {"prop": PROP, "kind": "ctor", "how": "fromFiber", "d": d, "t": t, "ids": None,
                        "shape": shape, "dflt": 0}
-            for dv in (0.5, 7.0, "e"):
+            for dv in (0.5, 7.0, "e", None, ""):
                 yield {"prop": PROP, "kind": "ctor", "how": "fromFiber", "d": d, "t": t, "ids": IDS[:d],
                        "shape": None, "dflt": dv, "dflt_code": dcode(dv)}
                 yield {"prop": PROP, "kind": "ctor", "how": "empty", "d": d, "t": [], "ids": IDS[:d],
                        "shape": [3, 4, 5][:d], "dflt": dv, "dflt_code": dcode(dv)}
+                yield {"prop": PROP, "kind": "ctor", "how": "makePopulated", "d": d, "t": [], "ids": IDS[:d],
+                       "shape": None, "dims": [2, 3, 2][:d], "dflt": dv, "dflt_code": dcode(dv), "initial": 1}
+                if dv is None or dv == "":
+                    yield {"prop": PROP, "kind": "ctor", "how": "fromUncompressed", "d": d, "t": t, "ids": IDS[:d],
+                           "shape": None, "dims": _cover(t, d), "dflt": dv, "dflt_code": dcode(dv)}
+        # makePopulated with its OWN default (None: "no empty value")
+        yield {"prop": PROP, "kind": "ctor", "how": "makePopulated-nodefault", "d": d, "t": [], "ids": IDS[:d],
+               "shape": None, "dims": [2, 3, 2][:d], "dflt": None, "dflt_code": dcode(None), "initial": 1}
     # four and five ranks with a DISTINCT declared size per rank: flatten / merge at every depth x
     # levels (up to levels = 3 / 4) x style, and unflatten after the tuple / pair flattens -- shape and
     # coordinates must follow the same re-arrangement
@@ -1012,7 +1036,7 @@ def _random(seed, tier):
         if r2 < 0.15:
             c["fdflt"] = rng.choice([0, 7, 3])
         elif r2 < 0.25:
-            c["dflt"] = rng.choice([0.5, 7.0, "e"])
+            c["dflt"] = rng.choice([0.5, 7.0, "e", None, ""])
         yield c
 
 
